@@ -2,7 +2,7 @@
 import re
 
 from ..facts import AnalysisBroken, walk, strip_targs
-from ..pp import pp, skip
+from ..pp import pp, skip, canon_text as CT
 from ..util import (args, assignment, callee, incdec, is_call, is_literal, obj, ref_decl, strip_not, literal_value,
                     find_var, root_of)
 
@@ -644,7 +644,7 @@ def rule_drop_shuffle(F, R):
             n += 1
             rets = sorted(pp(r["c"][0]) for r in f.nodes() if r["k"] == "return" and r.get("c"))
             ifs = [pp(x["c"][x["r"].index("cond")]) for x in f.nodes() if x["k"] == "if"]
-            ok = rets == ["m_samples(m_index)", "m_shuffled_all_samples(m_samples(m_index))"] and ifs == ["(m_shuffled_all_samples.size() == 0)"]
+            ok = rets == ["m_samples(m_index)", "m_shuffled_all_samples(m_samples(m_index))"] and ifs == [CT("(m_shuffled_all_samples.size() == 0)")]
             R.check(ok, "R-C08-10", "iterator sample", f.loc(), "the stored sample read is permutation(samples(index)) (samples(index) when not shuffled)", "iterator sample() is %s under %s" % (rets, ifs))
             break
     its = [f for f in F.functions.values() if f.name == "iterate" and f.cls == "nano::generator_t" and f.relfile == "include/nano/generator.h"]
